@@ -28,6 +28,8 @@ open TraitsVerif
 structure OSt where
   /-- identity of the HasTraits object -/
   self : Id := 0
+  /-- the attribute name -/
+  name : Name := 0
   /-- `obj.__dict__.get(name)` -/
   slot : Option Id := none
   /-- notifier list of the class trait (shared by all instances; never written here) -/
@@ -157,7 +159,7 @@ def postSetattr (E : Env) (t : TraitCore) (v : Id) (s : OSt) : Option Exc × OSt
 
 /-- `default_value_for` on the object's context. -/
 def OSt.defaultValueFor (E : Env) (t : TraitCore) (s : OSt) : Except Exc Id × OSt :=
-  match Attr.defaultValueFor E t s.self s.ctx with
+  match Attr.defaultValueFor E t s.self s.name s.ctx with
   | (r, c) => (r, { s with ctx := c })
 
 /-- `getattr_trait` (ctraits.c:1953-2012): called when the name is not in `__dict__`. -/
@@ -449,6 +451,7 @@ def World.traitOf (w : World) (o : Inst) (n : Name) : Option TraitDef :=
 class-level notifier list. -/
 def World.focus (w : World) (o : Inst) (n : Name) : OSt :=
   { self := o.oid
+    name := n
     slot := assocGet o.dict n
     cn := (w.classTrait o n).bind (·.notifiers)
     it := (assocGet o.itraits n).map (·.notifiers)
@@ -508,7 +511,9 @@ def World.onAttr (w : World) (i : Nat) (n : Name)
 def Ctx.mutate (c : Ctx) (cid x : Id) : Option Exc × Ctx :=
   match heapGet c.heap cid with
   | none => (some .attributeError, c)
-  | some xs => (none, { c with heap := heapSet c.heap cid (xs ++ [x]) })
+  | some xs =>
+    if c.frozen.contains cid then (some .attributeError, c)      -- a tuple has no `append`
+    else (none, { c with heap := heapSet c.heap cid (xs ++ [x]) })
 
 /-- `add_trait` (has_traits.py:2801-2865) for a name that may already have a trait:
 the new instance trait inherits the old trait's notifiers; a brand-new name gets
@@ -541,7 +546,8 @@ def World.step (E : Env) (w : World) : WOp → Res × World
       | none => (r, w1)
       | some cid =>
         match w1.ctx.mutate cid x with
-        | (e, c) => ({ exc := e, val := some cid }, { w1 with ctx := c })
+        | (some e, c) => ({ exc := some e }, { w1 with ctx := c })
+        | (none, c) => ({ val := some cid }, { w1 with ctx := c })
   | .mutateInner i n x =>
     match w.onAttr i n (fun t s => Attr.step E t s .get) with
     | (r, w1) =>
@@ -549,10 +555,11 @@ def World.step (E : Env) (w : World) : WOp → Res × World
       | none => (r, w1)
       | some cid =>
         match (heapGet w1.ctx.heap cid).bind (·.head?) with
-        | none => ({ exc := some .indexError, val := some cid }, w1)
+        | none => ({ exc := some .indexError }, w1)
         | some inner =>
           match w1.ctx.mutate inner x with
-          | (e, c) => ({ exc := e, val := some inner }, { w1 with ctx := c })
+          | (some e, c) => ({ exc := some e }, { w1 with ctx := c })
+          | (none, c) => ({ val := some inner }, { w1 with ctx := c })
   | .regDyn i n h => w.onAttr i n (fun t s => Attr.step E t s (.regDyn h false))
   | .regObs i n h => w.onAttr i n (fun t s => Attr.step E t s (.regObs h))
   | .regAny i h =>
